@@ -962,7 +962,9 @@ fn refetched_paths_with_path<TCompilationProfile: CompilationProfile>(
                         let client_object_selectable_name = client_object_selectable.name;
                         let new_paths = refetched_paths_with_path(
                             db,
-                            client_object_selectable.target_entity.inner().0,
+                            // N.B. the pointer's own selection set selects fields of the type
+                            // on which the pointer is defined, not of its target type.
+                            parent_object_entity_name,
                             selectable_reader_selection_set(
                                 db,
                                 parent_object_entity_name,
